@@ -10,7 +10,7 @@ ID = "C02"
 THEOREMS = "Properties/C02.v"
 HARNESS = ["c02"]
 LEVEL = "proof"
-READY = False
+READY = True
 TRUSTED_BASE = [
     "Coq 8.16.1 kernel (coqc, full .vo); vm_compute in every per-label obligation",
     "no axioms: Print Assumptions = 'Closed under the global context' for the theorems of Properties/C02.v and for every per-label theorem of coq/Gen/<sys>_equiv.v",
@@ -153,12 +153,13 @@ def run(ctx):
                 ctx.failures.append({"signature": "step-differs:%s.%s.%s" % (sysd["name"], m.get("process"), m.get("label")),
                                      "what": "replayed walk still distinguishes the two models", "case": case, "obs": m.get("go"), "exp": m.get("tla")})
         elif walkable and (broken or st["differential_only"] or corpus_walks(sysd["name"]) or ctx.tier == "thorough"):
-            n, steps = ((30, 300) if broken else (8, 120)) if ctx.tier == "quick" else (300, 300)
+            heavy = sysd["name"] in ("raftkvs", "pbkvs", "bug_167", "replicatedkv", "PBFail4_bug125", "proxy")
+            n, steps = ((30, 300) if broken else (8, 120)) if ctx.tier == "quick" else ((16, 200) if heavy else (40, 250))
             cover, err = search(ctx, info, sysd, broken, log, n, steps)
             st["differential_walk"] = {"walks": n, "max_steps": steps, "committed_steps_per_label": cover, "error": err}
         if sysd["name"] == "locksvc" and walkable and not ctx.replay:
             # tie A validated by B: the regenerated Go model must predict what the REAL generated archetypes do, attempt by attempt
-            ncase, nstep = (12, 40) if ctx.tier == "quick" else (150, 60)
+            ncase, nstep = (12, 40) if ctx.tier == "quick" else (60, 50)
             cases = [{"id": i, "steps": [{"p": ctx.rng.randrange(0, 4), "ks": [ctx.rng.randrange(0, 6) for _ in range(2)]}
                                          for _ in range(nstep)]} for i in range(ncase)]
             ncmp, mm, err = G.real_go_locksvc(info, cases, log)
@@ -199,8 +200,24 @@ def setup():
 
 MANIFEST = {
     "category": "proof",
-    "engine": "go2coq+tla2coq+coq",
-    "technique": "translation validation: both models regenerated from the sources on every run, per-label normal-form equality re-checked by Coq (vm_compute) through a checker proved sound once",
-    "text": "in progress",
-    "level_note": "in progress",
+    "engine": "go2coq+tla2coq+coq+go-harness",
+    "technique": "translation validation: both models regenerated from the sources on every run (tools/go2coq, tools/tla2coq), "
+                 "one Coq theorem per label (normal-form equality by vm_compute through a checker proved sound once), "
+                 "differential execution of the two models as search oracle, real-Go step harness for locksvc",
+    "text": ("For each of the 17 shipped spec/Go pairs whose TLA+ translation SANY accepts (11 systems/*, 6 *.gotests), coq/Gen/<sys>_equiv.v is "
+             "regenerated on every run and holds, per label, `forall fuel r ks, run Dgo fuel (symex_go body) r ks = run Dtla fuel (symex_tla action) r ks` "
+             "(all states, all selves, all CONSTANT interpretations, all either/with resolutions: same updated variables, next pc, prints, "
+             "assert/abort outcome), closed by equiv_sound (Properties/C02.v, closed under the global context) + vm_compute, plus equality of the "
+             "operator tables. 145 of 148 labels are discharged on the pinned tree (coq/C02/baseline_labels.txt); a listed label that stops "
+             "checking is reported, after a search for a distinguishing reachable (state, choices) by running the two regenerated models against "
+             "each other (for locksvc also replayed on the real generated Go). The 3 remaining labels (gogen/bug_167) are a known finding with "
+             "witnesses; no label is covered by differential execution only. One defect was repaired (stale TLA+ translation of proxy.tla)."),
+    "level_note": ("Trusted: Coq kernel + vm_compute; SANY, stock pcal, go/parser; the two translators; coq/C02/Lang.v eval and Sem.v symex_go/symex_tla/subst "
+                   "(the semantics of each side is DEFINED as run o symex; agreement with a direct interpreter is not proved); the hand-written "
+                   "Bind_<sys>.v (mapping macros, instance bindings, renamed variables, scratch variables of old translations, checked never read "
+                   "unprimed); the state relation Go local = v[self], pc = pc[self]. Validated each run only for locksvc against the real generated "
+                   "Go (480 attempts quick). Not covered: ExprTests, bug_119, ProcedureSpaghetti (SANY rejects their TLA+ translation, so procedure "
+                   "calls have no modelled semantics), EmptyBlock; archetypes a spec never instantiates; the Scala compiler itself (absent offline: "
+                   "the claim is about the shipped pairs); errors of never-used temporaries; int32 wrap. A 'no-failing-input-found' report means the "
+                   "obligation broke but random walks (quick: 30x300 attempts) reached no distinguishing state."),
 }
